@@ -24,9 +24,19 @@ region `build_binary` wrote for all four types, for random `-q`, `-b`, `-a` sett
   of the unquantised model by `C03Trie.table_structural` whenever the reserved back-off codes are respected;
   `train_exact` + `trie_end_to_end_quant_exact`: if every order has at most as many values as bins (`quant_exact`), decoding is
   the identity and FullScore over the `QuantTrieModel` / `QuantArrayTrieModel` memory = `score a h w`.
-* Hypotheses kept visible: `ShapeG` (bit widths / table sizes / regions in file order of `Binary.trieSetup` — discharged by
-  `decide` for the example instances, byte-for-byte on every run; general derivation from `trieSetup` only for the plain layout,
-  `shape_ok`), `QOK` (code widths ≤ 25, full tables; `train_qok` for `QSpec.train`).
+* ROUND 9 — `shape_g` (Proofs/TrieShapeG.lean, `shapeG_of_small`): the layout hypothesis `ShapeG` (bit widths, no `uint8` wrap,
+  `ArrayCount` entries of the offset table inside its block, float tables after the quant header, all regions in file order) is
+  DERIVED from `Binary.trieSetup` for all four classes and every `-a`/`-q`/`-b` (closed forms `setupG_closed`,
+  `quantTableLoop_closed`/`quantTables_getD`; `midG_fields`, `midG_pos` via `array_table_fits`; `middle_block`, `quant_block`;
+  ordering by `pw_cut` / `pw_blocks`).  `trie_build_represents_array`, `trie_end_to_end_array`, `trie_end_to_end_quant_exact` now
+  assume only sizes below 2^57 (`SmallOK`), like `trie_end_to_end`.
+* ROUND 9 — C03's structural clause on the built memories: `quant_structural_built` / `quant_structural_end_to_end`: the
+  quantised (array or not) and the unquantised (array or not) memories built from one table / one ARPA model return the same
+  n-gram length, left-independence and out-state for every query; `StructEq` is discharged by `struct_eq_built` from
+  `ofTableG_represents` and `train_markOK` (reserved back-off codes: a record decodes to `-0.0` iff the value was `-0.0`; needs
+  only that the arithmetic never yields `-0.0` as a bin centre — true of IEEE means of non-zero values and of `-inf`).
+* Hypotheses kept visible: `QOK` (code widths ≤ 25, full tables; `train_qok` for `QSpec.train`), arithmetic facts of the
+  quantiser's `Ops` (results are 32-bit patterns; order laws for the exact case; no `-0.0` centre for the structural case).
 -/
 set_option maxRecDepth 8000
 namespace KV.C03TrieG
@@ -434,5 +444,216 @@ theorem example_end_to_end_array (h : List Word) (st : KV.State.State)
     (fun vs hvs => by rw [k_blanks vs hvs]; exact k_small) h st sf w hw hwb hs
 
 end Examples
+
+/-! ## structure of quantised vs unquantised built tries (C03's clause, on the built memories) -/
+
+section Struct
+open KV.Quant
+
+/-- the reserved back-off codes are respected: a record decodes to `-0.0` ("does not extend right") iff the value was `-0.0` -/
+def MarkOK (bt : BT) (qs : QSpec) : Prop :=
+  ∀ p ∈ bt, 2 ≤ p.1.length → ((qs.btab (p.1.length - 2)).getD (qs.bcode p.1) 0 = noExtensionBits ↔ p.2.2 = noExtensionBits)
+
+/-- the tables of the quantised and of the unquantised layout of one bit table have the same keys and extension marks -/
+theorem struct_eq_built (fval₁ fval₂ : Nat → Rat) (bt : BT) (order : Nat) (qs : QSpec) (hnd : (bt.map (·.1)).Nodup)
+    (hlen : ∀ p ∈ bt, 1 ≤ p.1.length) (mk : MarkOK bt qs) :
+    KV.C03Trie.StructEq (tableOf (ftV fval₁ bt order (pvG bt (some qs)) (bvG bt (some qs))) order)
+      (tableOf (ftV fval₂ bt order (pvG bt none) (bvG bt none)) order) := by
+  refine ⟨Eq.refl order, ?_⟩
+  intro g
+  rw [lookup_ftV, lookup_ftV]
+  cases h : bt.lookup g with
+  | none => simp only [Option.map_none]
+  | some v =>
+    have hmem : (g, v) ∈ bt := KV.TrieLM.lookup_some_mem bt g v h
+    have hv : valuesOf bt g = v := by unfold valuesOf; rw [h]; rfl
+    have hl := hlen (g, v) hmem
+    simp only [Option.map_some]
+    refine ⟨rfl, ?_⟩
+    simp only [entryV, bvG, hv]
+    by_cases ho : g.length = order
+    · simp only [ho, if_true]
+    · simp only [ho, if_false]
+      by_cases h1 : g.length = 1
+      · simp only [h1, if_true]
+      · simp only [h1, if_false]
+        have h2 : 2 ≤ g.length := by simp only at hl; omega
+        have := mk (g, v) hmem h2
+        simp only at this
+        apply Bool.eq_iff_iff.mpr
+        simp only [bne_iff_ne, ne_eq, this]
+
+theorem makeBinsFrom_pred (ops : Ops Nat) (Pr : Nat → Prop) (hm : ∀ l, Pr (ops.mean l)) (sorted : List Nat) (bins : Nat) :
+    ∀ fuel i prev, Pr prev → ∀ x ∈ makeBinsFrom ops sorted bins fuel i prev, Pr x := by
+  intro fuel
+  induction fuel with
+  | zero => intro i prev _ x hx; simp [makeBinsFrom] at hx
+  | succ f ih =>
+    intro i prev hp x hx
+    have hc : Pr (binCenter ops sorted bins prev i) := by
+      unfold binCenter
+      dsimp only
+      split
+      · exact hp
+      · exact hm _
+    simp only [makeBinsFrom, List.mem_cons] at hx
+    rcases hx with rfl | hx
+    · exact hc
+    · exact ih _ _ hc x hx
+
+theorem encode_ge (ops : Ops Nat) (centers : List Nat) (reserved v : Nat) (h : reserved < centers.length) :
+    reserved ≤ encode ops centers reserved v := by
+  have hab : reserved ≤ lowerBound ops centers reserved v := by unfold lowerBound; omega
+  unfold encode
+  simp only
+  split
+  · exact Nat.le_refl _
+  · split
+    · omega
+    · split <;> omega
+
+/-- `QSpec.train` respects the reserved codes (no bin centre is `-0.0`: a mean of non-zero values never is, nor is `-inf`) -/
+theorem train_markOK (ops : Ops Nat) (pb bb : Nat) (bt : BT) (order : Nat) (hbb1 : 2 ≤ bb) (hnd : (bt.map (·.1)).Nodup)
+    (hmz : ∀ l, ops.mean l ≠ noExtensionBits) (hnz : ops.negInf ≠ noExtensionBits) :
+    MarkOK bt (QSpec.train ops pb bb bt order) := by
+  intro p hp hl
+  have hval : valuesOf bt p.1 = p.2 := by
+    unfold valuesOf
+    rw [lookup_of_mem_nodup bt p.1 p.2 hnd hp]; rfl
+  have h4 : 4 ≤ 2^bb := by
+    have : 2^2 ≤ 2^bb := Nat.pow_le_pow_right (by decide) hbb1
+    simpa using this
+  show (trainBackoff ops bb noExtensionBits 0 _).getD (encodeBackoff ops (trainBackoff ops bb noExtensionBits 0 _) (valuesOf bt p.1).2) 0
+    = noExtensionBits ↔ _
+  rw [hval]
+  generalize hvals : (((keysOfLen bt (p.1.length - 2 + 2)).map (·.2.2)).filter fun b => b ≠ noExtensionBits ∧ b ≠ 0) = vals
+  have hblen : (trainBackoff ops bb noExtensionBits 0 vals).length = 2^bb := by
+    simp [trainBackoff, makeBins, length_makeBinsFrom]; omega
+  unfold encodeBackoff
+  split
+  · rename_i h; simp [h, trainBackoff]
+  · rename_i h
+    split
+    · rename_i h0
+      simp only [trainBackoff, List.getD_cons_succ, List.getD_cons_zero, h0]
+    · constructor
+      · intro e
+        exfalso
+        have hge := encode_ge ops (trainBackoff ops bb noExtensionBits 0 vals) 2 p.2.2 (by rw [hblen]; omega)
+        have hlt := encode_lt ops (trainBackoff ops bb noExtensionBits 0 vals) 2 p.2.2 (by rw [hblen]; omega)
+        generalize encode ops (trainBackoff ops bb noExtensionBits 0 vals) 2 p.2.2 = c at *
+        obtain ⟨k, rfl⟩ : ∃ k, c = k + 2 := ⟨c - 2, by omega⟩
+        simp only [trainBackoff, List.getD_cons_succ] at e
+        have hkl : k < (makeBins ops vals (2^bb - 2)).length := by
+          simp only [trainBackoff, List.length_cons] at hlt; omega
+        rw [List.getD_eq_getElem?_getD, List.getElem?_eq_getElem hkl, Option.getD_some] at e
+        exact makeBinsFrom_pred ops (· ≠ noExtensionBits) hmz _ _ _ _ _ hnz _ (List.getElem_mem hkl) e
+      · intro e; exact absurd e h
+
+end Struct
+
+section StructBuilt
+open KV.Quant KV.Table KV.Score KV.State
+
+/-- **quant_structural_built** — C03's clause "a quantised trie returns the same structural results as the unquantised trie" as a
+theorem about the built memories: for every bit table, the `QuantTrieModel` / `QuantArrayTrieModel` memory (quantiser trained on
+the table) and the `TrieModel` / `ArrayTrieModel` memory give, for every state and word, the same matched n-gram length, the same
+left-independence flag and the same out-state length and words.  No `Represents`, `StructEq` or layout hypothesis: only sizes
+below 2^57, code widths, and that the arithmetic never produces `-0.0` as a bin centre. -/
+theorem quant_structural_built (fval₁ fval₂ : Nat → Rat) (bt : BT) (bound order start₁ start₂ : Nat)
+    (ops : Ops Nat) (pb bb : Nat) (a₁ a₂ : Bool) (bh₁ bh₂ : Nat)
+    (ok : BTOK bt bound order) (hv : ValsOK bt) (sm : SmallOK bt bound order)
+    (hpb : pb ≤ 25) (hbb : bb ≤ 25) (hbb1 : 2 ≤ bb) (hm : ∀ l, ops.mean l < 2^32) (hn : ops.negInf < 2^32)
+    (hmz : ∀ l, ops.mean l ≠ noExtensionBits) (hnz : ops.negInf ≠ noExtensionBits)
+    (s : State) (w : Word) (hw : w < bound) (hs : ∀ x ∈ s.words.take s.length, x < bound) :
+    (fullScore (search fval₁ (ofTableG bt bound order start₁ (some (QSpec.train ops pb bb bt order)) a₁ bh₁)) s w).1.ngramLength
+      = (fullScore (search fval₂ (ofTableG bt bound order start₂ none a₂ bh₂)) s w).1.ngramLength ∧
+    (fullScore (search fval₁ (ofTableG bt bound order start₁ (some (QSpec.train ops pb bb bt order)) a₁ bh₁)) s w).1.independentLeft
+      = (fullScore (search fval₂ (ofTableG bt bound order start₂ none a₂ bh₂)) s w).1.independentLeft ∧
+    (fullScore (search fval₁ (ofTableG bt bound order start₁ (some (QSpec.train ops pb bb bt order)) a₁ bh₁)) s w).2.length
+      = (fullScore (search fval₂ (ofTableG bt bound order start₂ none a₂ bh₂)) s w).2.length ∧
+    (fullScore (search fval₁ (ofTableG bt bound order start₁ (some (QSpec.train ops pb bb bt order)) a₁ bh₁)) s w).2.words
+      = (fullScore (search fval₂ (ofTableG bt bound order start₂ none a₂ bh₂)) s w).2.words := by
+  have ho : 1 ≤ order := by have := ok.order2; omega
+  have hqk : QOK' order (some (QSpec.train ops pb bb bt order)) := by
+    intro qs hq; cases hq; exact train_qok ops pb bb bt order hpb hbb hbb1 hm hn
+  have sh₁ := shapeG_of_small bt bound order start₁ (some (QSpec.train ops pb bb bt order)) a₁ bh₁
+    ⟨sm, fun qs h => by cases h; exact ⟨hpb, hbb⟩⟩ hqk
+  have sh₂ := shapeG_of_small bt bound order start₂ none a₂ bh₂ ⟨sm, fun qs h => by cases h⟩ (fun qs h => by cases h)
+  have rep₁ := ofTableG_represents fval₁ bt bound order start₁ _ a₁ bh₁ ok hv sh₁ hqk
+  have rep₂ := ofTableG_represents fval₂ bt bound order start₂ none a₂ bh₂ ok hv sh₂ (fun qs h => by cases h)
+  have hb₁ := ofTableG_bound bt bound order start₁ (some (QSpec.train ops pb bb bt order)) a₁ bh₁ ho
+  have hb₂ := ofTableG_bound bt bound order start₂ none a₂ bh₂ ho
+  exact KV.C03Trie.quant_structural_tries fval₁ fval₂ _ _ _ _ _ _ rep₁ rep₂
+    (struct_eq_built fval₁ fval₂ bt order _ ok.nodup (fun p hp => (ok.len p hp).1)
+      (train_markOK ops pb bb bt order hbb1 ok.nodup hmz hnz))
+    ok.order2 s w (by rw [hb₁]; exact hw) (by rw [hb₂]; exact hw) (by rw [hb₁]; exact hs) (by rw [hb₂]; exact hs)
+
+/-- … in particular for the table the trie builder makes of an ARPA model: all four trie classes built from one ARPA file agree
+on the structural results of every query -/
+theorem quant_structural_end_to_end (fval fval₁ fval₂ : Nat → Rat) (fadd : Nat → Nat → Nat) (a : Arpa) (bound start₁ start₂ : Nat)
+    (P B : List Word → Nat) (U : Nat) (enc : ArpaEncW fval a bound P B) (uk : UnkOK fval a U) (ar : BlankArith fval fadd a P B)
+    (ops : Ops Nat) (pb bb : Nat) (a₁ a₂ : Bool) (bh₁ bh₂ : Nat)
+    (sm : ∀ st, visitAll (visitOrder (gramsOf a P B)) = .ok st →
+      SmallOK (fixUnk (unkOf a U) (genTable fadd a.order (visitOrder (gramsOf a P B)) st.blanks)) bound a.order)
+    (hpb : pb ≤ 25) (hbb : bb ≤ 25) (hbb1 : 2 ≤ bb) (hm : ∀ l, ops.mean l < 2^32) (hn : ops.negInf < 2^32)
+    (hmz : ∀ l, ops.mean l ≠ noExtensionBits) (hnz : ops.negInf ≠ noExtensionBits)
+    (s : State) (w : Word) (hw : w < bound) (hs : ∀ x ∈ s.words.take s.length, x < bound) :
+    ∃ b, buildTableU fadd a.order (gramsOf a P B) (unkOf a U) = .ok b ∧
+      (fullScore (search fval₁ (ofTableG b.table bound a.order start₁ (some (QSpec.train ops pb bb b.table a.order)) a₁ bh₁)) s w).1.ngramLength
+        = (fullScore (search fval₂ (ofTableG b.table bound a.order start₂ none a₂ bh₂)) s w).1.ngramLength ∧
+      (fullScore (search fval₁ (ofTableG b.table bound a.order start₁ (some (QSpec.train ops pb bb b.table a.order)) a₁ bh₁)) s w).1.independentLeft
+        = (fullScore (search fval₂ (ofTableG b.table bound a.order start₂ none a₂ bh₂)) s w).1.independentLeft ∧
+      (fullScore (search fval₁ (ofTableG b.table bound a.order start₁ (some (QSpec.train ops pb bb b.table a.order)) a₁ bh₁)) s w).2.length
+        = (fullScore (search fval₂ (ofTableG b.table bound a.order start₂ none a₂ bh₂)) s w).2.length ∧
+      (fullScore (search fval₁ (ofTableG b.table bound a.order start₁ (some (QSpec.train ops pb bb b.table a.order)) a₁ bh₁)) s w).2.words
+        = (fullScore (search fval₂ (ofTableG b.table bound a.order start₂ none a₂ bh₂)) s w).2.words := by
+  obtain ⟨vs, b, hst, hf, hb, htab, _⟩ := buildTable_general fadd enc
+  refine ⟨{ b with table := fixUnk (unkOf a U) b.table }, by simp [buildTableU, hb], ?_⟩
+  show _ ∧ _ ∧ _ ∧ _
+  simp only [htab]
+  have hsums := ar.sums vs hst
+  have hub : ∀ x, unkOf a U = some x → x < 2^32 := by
+    intro x hx
+    unfold unkOf at hx
+    split at hx
+    · cases hx; exact uk.bits
+    · cases hx
+  exact quant_structural_built fval₁ fval₂ _ bound a.order start₁ start₂ ops pb bb a₁ a₂ bh₁ bh₂
+    (fixUnk_btok _ _ _ _ (genTable_btok fadd enc vs hf))
+    (fixUnk_vals _ _ hub (genTable_vals fadd enc vs (fun b hb => (hsums b hb).1))) (sm vs hst)
+    hpb hbb hbb1 hm hn hmz hnz s w hw hs
+
+end StructBuilt
+
+section StructExample
+open KV.Quant KV.Table KV.Score KV.State
+
+/-- an arithmetic for the non-vacuity instance (order on bit patterns of negative floats, constant mean) -/
+def trivOps : Ops Nat := { lt := fun a b => b < a, sub := fun a b => a - b, mean := fun _ => 0, negInf := 0xFF800000 }
+
+theorem k_table_ok : BTOK kTable 5 3 ∧ ValsOK kTable := by
+  obtain ⟨st, hst, hf⟩ := w_visit k_enc
+  have hb := k_blanks st hst
+  have hT : kTable = fixUnk (unkOf kArpa unkBits) (genTable kAdd kArpa.order (visitOrder (gramsOf kArpa kP kB)) st.blanks) := by
+    rw [hb]; rfl
+  rw [hT]
+  have hs := k_arith.sums st hst
+  exact ⟨fixUnk_btok _ _ _ _ (genTable_btok kAdd k_enc st hf),
+    fixUnk_vals _ _ (fun x hx => by simp [unkOf, kArpa] at hx; subst hx; decide)
+      (genTable_vals kAdd k_enc st (fun b hb => (hs b hb).1))⟩
+
+/-- **non-vacuity of `quant_structural_built`**: the quantised array trie (`-q 2 -b 3 -a 2`) and the plain trie of the example
+table agree on the structure of every query -/
+theorem example_quant_structural (s : State) (w : Word) (hw : w < 5) (hs : ∀ x ∈ s.words.take s.length, x < 5) :
+    (fullScore (search f32ToRat (ofTableG kTable 5 3 144 (some (QSpec.train trivOps 2 3 kTable 3)) true 2)) s w).1.ngramLength
+      = (fullScore (search f32ToRat (ofTableG kTable 5 3 144 none false 0)) s w).1.ngramLength ∧
+    (fullScore (search f32ToRat (ofTableG kTable 5 3 144 (some (QSpec.train trivOps 2 3 kTable 3)) true 2)) s w).2.words
+      = (fullScore (search f32ToRat (ofTableG kTable 5 3 144 none false 0)) s w).2.words := by
+  have := quant_structural_built f32ToRat f32ToRat kTable 5 3 144 144 trivOps 2 3 true false 2 0 k_table_ok.1 k_table_ok.2 k_small
+    (by decide) (by decide) (by decide) (fun _ => (by decide : (0:Nat) < 2^32)) (by decide) (fun _ => (by decide : (0:Nat) ≠ noExtensionBits)) (by decide) s w hw hs
+  exact ⟨this.1, this.2.2.2⟩
+
+end StructExample
 
 end KV.C03TrieG
